@@ -1,6 +1,6 @@
 (* Props/C15.v — C15: reported line, column and context locate the offending byte.
    Statements only; each is closed by [exact] of a lemma proved under Position/. *)
-From Verif Require Import Common.Base Cursor.Model Position.Model Position.Spec Position.Total
+From Verif Require Import Common.Base Cursor.Model Position.Model Position.Spec Position.Lemmas Position.Total
   Position.Context Position.Caret Position.Proofs.
 
 (* Position never panics and never exhausts its fuel: for every IsGraphic predicate, every byte
@@ -29,6 +29,13 @@ Theorem position_line_col :
                      Done (1 + breaks (runes pre), 1 + len (last_line (runes pre)), ctx)).
 Proof. exact position_line_col_full. Qed.
 Print Assumptions position_line_col.
+
+(* The specification function last_line is what its name says: the suffix after the last break. *)
+Theorem last_line_characterised :
+  forall rs, exists a, rs = a ++ last_line rs /\ forallb (fun r => negb (is_break r)) (last_line rs) = true /\
+                       (a = [] \/ exists a' b, a = a' ++ [b] /\ is_break b = true).
+Proof. exact (Lemmas.after_last_spec is_break). Qed.
+Print Assumptions last_line_characterised.
 
 (* Offsets outside the text (the quantifier includes -1 and len+1): every offset <= 0 behaves as 0 and
    every offset >= len as len — for all byte strings, not only valid UTF-8. *)
